@@ -1,5 +1,5 @@
 (* C02 - CTAP2 response encoding carries every member under its specified key, exactly. *)
-From Ctap Require Import Base Schema Wire Typed Procs Inst Tables ProcTables Finite Canonical WireP SerP FramingP ObResponseSide ObRespTables FnShapes Shapes ObShapeResponse AgreeP ObResponseAgree Deps ObDeps.
+From Ctap Require Import Base Schema Wire Typed Procs Inst Tables ProcTables Finite Canonical WireP SerP FramingP ObResponseSide ObRespTables FnShapes Shapes ObShapeResponse AgreeP ObResponseAgree Deps ObDeps ObShapeFilters.
 Local Open Scope string_scope.
 Local Open Scope Z_scope.
 
@@ -121,6 +121,10 @@ Proof. exact generated_shapes_response. Qed.
 Theorem c02_modelled_dependencies_pinned : deps_hold lock_versions cargo_deps = true.
 Proof. exact generated_deps. Qed.
 
+(* further hand-modelled functions this property rests on *)
+Theorem c02_modelled_functions_unchanged_filters : shapes_hold fn_shapes shapes_filters = true.
+Proof. exact generated_shapes_filters. Qed.
+
 Eval vm_compute in "ASSUMPTIONS c02_message". Print Assumptions c02_message.
 Eval vm_compute in "ASSUMPTIONS c02_parameterless". Print Assumptions c02_parameterless.
 Eval vm_compute in "ASSUMPTIONS c02_next_assertion_same". Print Assumptions c02_next_assertion_same.
@@ -135,3 +139,4 @@ Eval vm_compute in "ASSUMPTIONS c02_modelled_functions_unchanged_response". Prin
 Eval vm_compute in "ASSUMPTIONS c02_generated_agreement". Print Assumptions c02_generated_agreement.
 Eval vm_compute in "ASSUMPTIONS c02_generated_model_is_spec_model". Print Assumptions c02_generated_model_is_spec_model.
 Eval vm_compute in "ASSUMPTIONS c02_modelled_dependencies_pinned". Print Assumptions c02_modelled_dependencies_pinned.
+Eval vm_compute in "ASSUMPTIONS c02_modelled_functions_unchanged_filters". Print Assumptions c02_modelled_functions_unchanged_filters.
